@@ -25,7 +25,14 @@ rule = ("scripts = 'p fmt <description> <sect flags> <opt flags>' then groups of
         "per distinct script; behind every parse (every fourth one in stream 1) the op 'p stat' / 'x stat' compares "
         "return code, line counter, number of getc calls, consumed bytes and the representation (inline / buffer) of "
         "the stored values with the model in the observable column (a difference fails the check); 'p config fail=k' "
-        "reports whether the handler refused: 'ok' together with 'refused=yes' is not an allowed outcome")
+        "reports whether the handler refused: 'ok' together with 'refused=yes' is not an allowed outcome; 'p config keep' "
+        "(behind every plain 'p config', every eighth in stream 1) runs the same parse with a handler that keeps a SHARED "
+        "reference (struct copy + addref) to the path buffer of every event and verifies and releases them afterwards; "
+        "'p node' into an empty target must deliver exactly the tree the reported events describe (Spec/EventTree.lean); "
+        "stream 4 (oom) = 44 inputs (values of 1..700 bytes, thorough up to 65536, long names, nesting) x allocation "
+        "request k = 1..36 (thorough 80) refused: a failure has to leave the scratch target empty and nothing allocated; "
+        "stream 5 = 400000 nested sections (text built by the driver; thorough 1000000); the C++ part also removes the file "
+        "behind the parser ('x unlink')")
 assumptions = [
     "the getc callback returns 0..255 or the end marker (-2 end of input, -1 read error) and keeps returning it",
     "memory allocation never fails in the harness runs",
